@@ -15,6 +15,7 @@
 package zap
 
 import (
+	"bytes"
 	"fmt"
 
 	"github.com/RoaringBitmap/roaring/v2"
@@ -122,6 +123,13 @@ func (d *Dictionary) AutomatonIterator(a segment.Automaton,
 	if d.fst != nil {
 		rv := &DictionaryIterator{
 			d: d,
+		}
+
+		// [start, end) is empty when start is not below end; vellum would
+		// still yield end itself if it happens to be a key
+		if endKeyExclusive != nil &&
+			bytes.Compare(startKeyInclusive, endKeyExclusive) >= 0 {
+			return rv
 		}
 
 		itr, err := d.fst.Search(a, startKeyInclusive, endKeyExclusive)
